@@ -2,41 +2,45 @@ package main
 
 import (
 	"fmt"
-	"strings"
-	"time"
 
-	"github.com/pentops/j5/internal/zzverif/gpb"
+	"github.com/pentops/j5/internal/zzverif/gj5s"
 	"github.com/pentops/j5/lib/j5codec"
+	"google.golang.org/protobuf/proto"
+	"google.golang.org/protobuf/reflect/protoreflect"
 	"google.golang.org/protobuf/types/dynamicpb"
 )
 
 func main() {
-	rec := &gpb.Message{Name: "Rec"}
-	ff := gpb.F("f", 1, gpb.KObject, gpb.Single)
-	ff.Msg = rec
-	rec.Fields = []*gpb.Field{ff, gpb.F("s", 6, gpb.KString, gpb.Single)}
-	s := &gpb.Schema{Messages: []*gpb.Message{rec}, Root: rec, Enums: []*gpb.Enum{gpb.DefaultEnum}}
-	if err := s.Build(); err != nil {
+	gj5s.Silence()
+	b := gj5s.NewBundle()
+	b.Add("t/v1/a.j5s", "package t.v1\n\nobject Foo {\n\tfield when timestamp\n\tfield amount decimal\n\tfield day date\n}\n")
+	files, err := b.Compile("t.v1")
+	if err != nil {
 		panic(err)
 	}
-	codec := j5codec.NewCodec()
-	for _, d := range []int{1000, 5000, 10000, 20000, 40000} {
-		for _, closed := range []bool{true, false} {
-			doc := strings.Repeat(`{"f":`, d) + `{}`
-			if closed {
-				doc += strings.Repeat(`}`, d)
-			}
-			msg := dynamicpb.NewMessage(s.Desc(rec))
-			t0 := time.Now()
-			err := codec.JSONToProto([]byte(doc), msg)
-			e := ""
-			if err != nil {
-				e = err.Error()
-				if len(e) > 60 {
-					e = e[:60]
-				}
-			}
-			fmt.Printf("depth %d closed %v: %v  err=%s\n", d, closed, time.Since(t0), e)
-		}
+	var fds []protoreflect.FileDescriptor
+	for _, f := range files {
+		fds = append(fds, f)
 	}
+	reg, err := gj5s.Relink(fds)
+	if err != nil {
+		panic(err)
+	}
+	d, _ := reg.FindDescriptorByName("t.v1.Foo")
+	md := d.(protoreflect.MessageDescriptor)
+	codec := j5codec.NewCodec()
+	msg := dynamicpb.NewMessage(md)
+	err = codec.JSONToProto([]byte(`{"when":"2024-01-02T03:04:05Z","amount":"1.5","day":"2024-02-03"}`), msg)
+	fmt.Println("decode err:", err)
+	bb, err := proto.Marshal(msg)
+	fmt.Println("marshal:", len(bb), err)
+	msg2 := dynamicpb.NewMessage(md)
+	fmt.Println("unmarshal:", proto.Unmarshal(bb, msg2))
+	fmt.Println("equal(decoded, reparsed):", proto.Equal(msg, msg2))
+	out, err := codec.ProtoToJSON(msg2)
+	fmt.Println("encode reparsed:", string(out), err)
+	func() {
+		defer func() { fmt.Println("clone panic:", recover()) }()
+		_ = proto.Clone(msg)
+	}()
 }
